@@ -682,6 +682,10 @@ def run(ctx):
     rule_short_circuit(ctx, "R6.16")
     rule_ref_opaque(ctx, "R6.16b")
     scope.rule_scope_in_force(ctx, "R6.17")
+    # R6.18/R6.19: the schema an error records is the one its schema path reaches only if references are followed from the scope of the
+    # schema they stand in: the root schema's id is entered too, and nothing lazy leaves `ref` to run outside the scope it entered (C06-r7m1, -m2)
+    scope.rule_scope_entered(ctx, "R6.18")
+    scope.rule_lazy_inside_scope(ctx, "R6.19")
 
 
 def rule_errors_untouched(ctx, rid="R6.12"):
